@@ -281,6 +281,9 @@ def with_budget(limit, fn):
         Dispatcher.dispatch, Dispatcher.is_operation_ready = orig_d, orig_r
 
 
+_KEPT_DECODED = []      # schedules decoded earlier in this process and still alive
+
+
 def run_sequences(ctx, case):
     from job_shop_lib import Schedule
     from job_shop_lib.exceptions import ValidationError
@@ -324,6 +327,8 @@ def run_sequences(ctx, case):
         ctx.violation("c14_schedule_to_dict", {"got": d["job_sequences"], "want": seqs})
     try:
         S3 = Schedule.from_dict(**d)
+        _KEPT_DECODED.append(S3)         # earlier results stay referenced by their owner
+        del _KEPT_DECODED[:-300]
         S4 = Schedule.from_dict(**json.loads(json.dumps(d)))
         S5 = Schedule.from_dict(run.instance, d["job_sequences"], d["metadata"])
     except Exception as e:
